@@ -1,3 +1,4 @@
+pub mod conn;
 pub mod smoke;
 
 use serde_json::Value;
@@ -30,6 +31,7 @@ pub fn dispatch(args: &[String]) -> i32 {
     let a = Args::parse(&args[1..]);
     match cmd.as_str() {
         "smoke" => smoke::main(&a),
+        "conn" => conn::main(&a),
         other => {
             eprintln!("unknown scenario {other}");
             2
@@ -40,4 +42,79 @@ pub fn dispatch(args: &[String]) -> i32 {
 /// Summary JSON printed on the last line of stdout for the driver.
 pub fn print_summary(v: &Value) {
     println!("SUMMARY {}", v);
+}
+
+use crate::sim::{RunOutput, Sim};
+use serde_json::json;
+use std::future::Future;
+use std::sync::{
+    atomic::{AtomicU64, Ordering},
+    Arc, Mutex,
+};
+
+/// Run `runs` simulations (seeds seed..seed+runs) on `jobs` OS threads, write their traces into
+/// `files` ndjson files (runs separated by `reset` lines) and print a SUMMARY line.
+pub fn run_many<F, Fut>(a: &Args, name: &str, f: F) -> i32
+where
+    F: Fn(u64, Sim) -> Fut + Send + Sync + 'static,
+    Fut: Future<Output = Result<Value, String>>,
+{
+    let seed0 = a.u64("seed", 1);
+    let runs = a.u64("runs", 4);
+    let jobs = a.u64("jobs", 8).max(1);
+    let files = a.u64("files", 4).max(1) as usize;
+    let out = a.str("out", &format!("/verif/work/{name}"));
+    let f = Arc::new(f);
+    let next = Arc::new(AtomicU64::new(0));
+    let results: Arc<Mutex<Vec<(u64, RunOutput)>>> = Arc::new(Mutex::new(Vec::new()));
+    let mut handles = Vec::new();
+    for _ in 0..jobs.min(runs.max(1)) {
+        let f = f.clone();
+        let next = next.clone();
+        let results = results.clone();
+        handles.push(std::thread::spawn(move || loop {
+            let i = next.fetch_add(1, Ordering::SeqCst);
+            if i >= runs {
+                break;
+            }
+            let seed = seed0 + i;
+            let f = f.clone();
+            let outp = crate::sim::run_sim(seed, move |sim| f(seed, sim));
+            results.lock().unwrap().push((seed, outp));
+        }));
+    }
+    for h in handles {
+        let _ = h.join();
+    }
+    let mut results = std::mem::take(&mut *results.lock().unwrap());
+    results.sort_by_key(|(s, _)| *s);
+    let mut file_lines: Vec<Vec<Value>> = vec![Vec::new(); files];
+    let mut summary = Vec::new();
+    for (k, (seed, outp)) in results.iter().enumerate() {
+        let fi = k % files;
+        let start = file_lines[fi].len() + 1;
+        file_lines[fi].push(crate::trace::reset_line(*seed, json!({})));
+        file_lines[fi].extend(outp.lines.iter().cloned());
+        summary.push(json!({
+            "seed": seed,
+            "file": format!("{out}.{fi}.ndjson"),
+            "first_line": start,
+            "last_line": file_lines[fi].len(),
+            "events": outp.lines.len(),
+            "panics": outp.panics,
+            "result": match &outp.result { Ok(v) => json!({"ok": v}), Err(e) => json!({"err": e}) },
+            "virtual_ms": outp.virtual_ms,
+        }));
+    }
+    let mut written = Vec::new();
+    for (fi, lines) in file_lines.iter().enumerate() {
+        if lines.is_empty() {
+            continue;
+        }
+        let path = format!("{out}.{fi}.ndjson");
+        crate::trace::write_ndjson(std::path::Path::new(&path), lines).expect("write trace");
+        written.push(path);
+    }
+    print_summary(&json!({"scenario": name, "files": written, "runs": summary}));
+    0
 }
